@@ -48,6 +48,17 @@ type Hit struct {
 	Site  string `json:"site"`
 	Label string `json:"label"`
 	N     int    `json:"n"`
+	// Tear > 0 (site index.afterEncode only): the process died while it was writing index.json in place -
+	// the file holds the first Tear/17 of its bytes
+	Tear int `json:"tear,omitempty"`
+}
+
+// tearIndex cuts the project's index.json to the first k/17 of its bytes.
+func tearIndex(sim *projsim.Sim, k int) {
+	p := filepath.Join(sim.Env.Root(), ".dawn", "build", "index.json")
+	if b, err := os.ReadFile(p); err == nil {
+		os.WriteFile(p, b[:len(b)*k/17], 0o644)
+	}
 }
 
 func checkBytes(sim *projsim.Sim, id int, where string) *ev.Verdict {
@@ -265,6 +276,19 @@ func exec(c Case) (v ev.Verdict) {
 	if len(hits) == 0 {
 		return ev.Verdict{Skip: "no-crash-points"}
 	}
+	// death in the middle of the in-place index write: prefixes of the complete file
+	for _, h := range append([]Hit{}, hits...) {
+		if h.Site != "index.afterEncode" {
+			continue
+		}
+		tears := []int{2, 6, 11, 15}
+		if !run.Quick() {
+			tears = []int{1, 2, 3, 4, 5, 6, 7, 8, 9, 10, 11, 12, 13, 14, 15, 16}
+		}
+		for _, k := range tears {
+			hits = append(hits, Hit{Site: h.Site, Label: h.Label, N: h.N, Tear: k})
+		}
+	}
 	var chosen []int
 	switch {
 	case c.Only != nil:
@@ -308,6 +332,11 @@ func exec(c Case) (v ev.Verdict) {
 			continue
 		}
 		run.Class("site:"+h.Site, 1)
+		if h.Tear > 0 {
+			tearIndex(sim, h.Tear)
+			where += fmt.Sprintf(", index.json cut to %d/17 of its bytes", h.Tear)
+			run.Class("torn-index", 1)
+		}
 		nontrivial := hi > 0 && hi < len(hits)-1
 		if nontrivial {
 			for _, t := range m.Live() {
